@@ -111,6 +111,18 @@ def run(chk):
     strs = ["", "a", "aaa", "aaaa", "abab", "xaaay", "baaa", "é€", " a b ", " x　"] + \
            ["".join(rng.choice(ALPHA) for _ in range(rng.randrange(0, 8))) for _ in range(nstr)]
     needles = ["", "a", "aa", "ab", "ba", "b", "é", "€", "😀", " ", "aaa", "zz", "\n", "A", "aab"]
+    # case-insensitive forms over characters whose lower-case form has another UTF-8 length (Kelvin sign, Angstrom sign, Ohm sign,
+    # A with stroke, sharp s, dotted capital I): receiver and needle may differ in byte length and still match
+    FOLD = ["K", "\u212a", "k", "\u212b", "\u00e5", "\u00c5", "\u2126", "\u03c9", "\u03a9", "\u023a", "\u2c65", "\u1e9e", "\u00df", "\u0130", "i", "I", "g", "G", "\u00c9", "\u00e9"]
+    fold_strs = ["".join(rng.choice(FOLD) for _ in range(rng.randrange(1, 4))) for _ in range(120 if quick else 2000)] + FOLD + \
+                ["k", "kg", "\u023a", "\u2c65x", "x\u212a", "\u212ag"]
+    for s in fold_strs:
+        for n in [rng.choice(fold_strs), rng.choice(FOLD), s.lower(), s.upper(), s.swapcase(), s[:1], s[-1:]]:
+            b = [("s", vs(s)), ("n", vs(n))]
+            note = [("s", s), ("n", n)]
+            add("s.containsI(n)", b, "OK " + vb(n.lower() in s.lower()), note)
+            add("s.startsWithI(n)", b, "OK " + vb(s.lower().startswith(n.lower())), note)
+            add("s.endsWithI(n)", b, "OK " + vb(s.lower().endswith(n.lower())), note)
     for s in strs:
         for n in (rng.sample(needles, 6) + [s[:2], s[-2:], s]) if s else needles[:4]:
             b = [("s", vs(s)), ("n", vs(n))]
